@@ -397,14 +397,14 @@ func (s *Session) stopSession(data any) {
 }
 
 func (s *Session) purgeChannels() {
-	for len(s.send) > 0 {
-		<-s.send
-	}
-	for len(s.stop) > 0 {
-		<-s.stop
-	}
-	for len(s.detach) > 0 {
-		<-s.detach
+	for {
+		select {
+		case <-s.send:
+		case <-s.stop:
+		case <-s.detach:
+		default:
+			return
+		}
 	}
 }
 
